@@ -88,6 +88,10 @@ def gen_ops(rng, keys, nops, tag, weights=None):
     def pairs(n):
         return [[rng.choice(keys), val()] for _ in range(n)]
 
+    def okind():
+        # the other operand of ==/!=: mostly a plain dict, sometimes another mapping type
+        return [rng.choice(L.OPERAND_KINDS[1:])] if rng.random() < 0.35 else []
+
     for _ in range(nops):
         r = rng.random()
         k = rng.choice(keys)
@@ -128,9 +132,9 @@ def gen_ops(rng, keys, nops, tag, weights=None):
         elif r < 0.91:
             ops.append(['keys'])
         elif r < 0.95:
-            ops.append(['eq', 'CUR' if rng.random() < 0.5 else pairs(rng.randint(0, 3))])
+            ops.append(['eq', 'CUR' if rng.random() < 0.5 else pairs(rng.randint(0, 3))] + okind())
         elif r < 0.965:
-            ops.append(['ne', 'CUR' if rng.random() < 0.5 else pairs(rng.randint(0, 3))])
+            ops.append(['ne', 'CUR' if rng.random() < 0.5 else pairs(rng.randint(0, 3))] + okind())
         elif r < 0.97:
             ops.append(['eqself'])
         else:
@@ -163,7 +167,7 @@ def _run_prefix(case, n, spec):
     for op in case['ops'][:n]:
         mop = _resolve_cur(op, state, 0) or L.model_op(op)
         if mop[0] in ('eq', 'ne') and op[1] == 'CUR':
-            real = ('ok', (c == dict(mop[1])) if mop[0] == 'eq' else (c != dict(mop[1])))
+            real = ('ok', L.compare(c, mop[0], mop[1], op[2] if len(op) > 2 else 'dict'))
         else:
             real, post = L.exec_op(c, op, ctx)
         alts = M.apply(spec, state, mop)
@@ -201,7 +205,7 @@ def run_case(case):
         mop = _resolve_cur(op, state, 0) or L.model_op(op)
         if op[0] in ('eq', 'ne') and op[1] == 'CUR':
             try:
-                real = ('ok', (c == dict(mop[1])) if op[0] == 'eq' else (c != dict(mop[1])))
+                real = ('ok', L.compare(c, op[0], mop[1], op[2] if len(op) > 2 else 'dict'))
             except RecursionError:
                 real = ('exc', 'RecursionError')
             post = None
